@@ -89,6 +89,12 @@ pub fn drive_nfs(ops: &str, trace: &str) {
                     file.set_modified(std::time::UNIX_EPOCH + std::time::Duration::from_secs(1_000_000_000)).map_err(io)?;
                     Ok(None)
                 }
+                "futuremtime" => {
+                    let p = paths.get(&f).ok_or("no file")?;
+                    let file = std::fs::File::options().write(true).open(p).map_err(io)?;
+                    file.set_modified(std::time::SystemTime::now() + std::time::Duration::from_secs(60)).map_err(io)?;
+                    Ok(None)
+                }
                 "sleep" => {
                     std::thread::sleep(std::time::Duration::from_millis(geti(op, "ms") as u64));
                     Ok(None)
